@@ -459,6 +459,31 @@ def overl_oracle(mp, known, read_feats, mapped_region, delta, C):
 
 
 # ------------------------------------------------------------------------------------------------ driver
+def check_interval_pairs(args):
+    """two-interval predicates with a tolerance: overlaps_at_least / overlaps_at_least_when_overlap are true iff the intervals share
+       at least delta positions or one contains the other; both are symmetric in their arguments"""
+    U, = args
+    import src.common as C
+    bad = []
+    n = 0
+    ivs = [(a, b) for a in range(1, U + 1) for b in range(a, U + 1)]
+    for r1 in ivs:
+        for r2 in ivs:
+            inter = len(set(range(r1[0], r1[1] + 1)) & set(range(r2[0], r2[1] + 1)))
+            cont = (r1[0] <= r2[0] and r2[1] <= r1[1]) or (r2[0] <= r1[0] and r1[1] <= r2[1])
+            for delta in range(0, U + 1):
+                n += 1
+                exp = inter >= 1 and (inter >= delta or cont)
+                for fn in (C.overlaps_at_least,) + ((C.overlaps_at_least_when_overlap,) if inter >= 1 else ()):
+                    try:
+                        got = bool(fn(r1, r2, delta))
+                    except Exception as e:  # noqa
+                        got = "EXC " + repr(e)
+                    if got != exp:
+                        bad.append((fn.__name__, [r1, r2, delta], got, exp))
+    return n, n, bad[:20]
+
+
 def run(ctx):
     quick = ctx.tier == "quick"
     U = 6 if quick else 8
@@ -483,6 +508,7 @@ def run(ctx):
         per_fn[label] = t
 
     absorb(core.pmap(check_single, [(U, c) for c in core.chunks(lists, core.NCPU * 2)]), "single-list functions")
+    absorb([check_interval_pairs((U + 2,))], "interval pair predicates")
     blists = all_lists(UB, None)
     ctx.note("UB=%d: %d interval lists of any length for the binary searches" % (UB, len(blists)))
     ctx.rng.shuffle(blists)
